@@ -17,6 +17,30 @@ fn at<'a>(root: &'a mut Element<String>, path: &[String]) -> Option<&'a mut Elem
     Some(cur)
 }
 
+/// what the public lookups say at the element an operation addressed: for every name of interest the result of
+/// get_child and get_child_mut (found?, necessity, name of the child returned)
+pub fn lookups(root: &mut Option<Element<String>>, op: &Value, pool: &[String]) -> Value {
+    let path = names(&op["path"]);
+    let r = match root.as_mut() {
+        Some(r) => r,
+        None => return json!([]),
+    };
+    let target = match at(r, &path) {
+        Some(t) => t,
+        None => return json!([]),
+    };
+    let mut out = Vec::new();
+    for n in pool {
+        let a = target.get_child(n).map(|c| (matches!(c, Necessity::Mandatory(_)), c.inner_t().name.clone()));
+        let b = target.get_child_mut(n).map(|c| (matches!(c, Necessity::Mandatory(_)), c.inner_t().name.clone()));
+        out.push(json!({"name": crate::render::chars(n), "found": a.is_some(), "found_mut": b.is_some(),
+                        "t": a.as_ref().map(|x| tag(x.0)).unwrap_or("-"), "t_mut": b.as_ref().map(|x| tag(x.0)).unwrap_or("-"),
+                        "got": crate::render::chars(a.as_ref().map(|x| x.1.as_str()).unwrap_or("")),
+                        "got_mut": crate::render::chars(b.as_ref().map(|x| x.1.as_str()).unwrap_or(""))}));
+    }
+    Value::Array(out)
+}
+
 /// apply one operation through the public API only; returns false if the addressed element does not exist
 pub fn apply(root: &mut Option<Element<String>>, op: &Value) -> bool {
     let kind = op["op"].as_str().unwrap_or("");
@@ -96,7 +120,9 @@ pub fn replay(a: &Args) {
             }
             let actual = root.as_ref().map(|e| crate::render::view_chars(&e.verif_view())).unwrap_or(json!({"none": true}));
             if let Some(t) = trace.as_mut() {
-                t.line(&json!({"ev": "Op", "op": op, "before": before, "after": actual}));
+                let pool: Vec<String> = { let mut p: Vec<String> = ops.iter().filter_map(|o| o.get("name")).map(unchars).collect(); p.sort(); p.dedup(); p };
+                let lk = if op["op"] == "new" { json!([]) } else { lookups(&mut root, op, &pool) };
+                t.line(&json!({"ev": "Op", "op": op, "before": before, "after": actual, "lookups": lk}));
             }
             if let Some(exp) = c["trees"].get(i) {
                 if *exp != actual {
@@ -214,7 +240,7 @@ pub fn record(a: &Args) {
         apply(&mut root, &first);
         if let Some(t) = trace.as_mut() {
             t.line(&json!({"ev": "Reset"}));
-            t.line(&json!({"ev": "Op", "op": first, "before": {"none": true},
+            t.line(&json!({"ev": "Op", "op": first, "before": {"none": true}, "lookups": [],
                            "after": crate::render::view_chars(&root.as_ref().unwrap().verif_view())}));
         }
         let nops = 1 + r.below(maxops);
@@ -261,8 +287,9 @@ pub fn record(a: &Args) {
             }
             ops.push(op.clone());
             if let Some(t) = trace.as_mut() {
+                let lk = lookups(&mut root, &op, &names);
                 t.line(&json!({"ev": "Op", "op": op, "before": before,
-                               "after": crate::render::view_chars(&root.as_ref().unwrap().verif_view())}));
+                               "after": crate::render::view_chars(&root.as_ref().unwrap().verif_view()), "lookups": lk}));
             }
         }
         if let (Some(t), Some(e)) = (renders.as_mut(), root.as_ref()) {
